@@ -359,8 +359,9 @@ func removePattern(str, pat string, fromEnd, shortest bool) string {
 	}
 	switch {
 	case fromEnd && shortest:
-		// use .* to get the right-most shortest match
-		expr = ".*(" + expr + ")$"
+		// use .* to get the right-most shortest match;
+		// (?s) so that the skipped part may span multiple lines
+		expr = "(?s).*(" + expr + ")$"
 	case fromEnd:
 		// simple suffix
 		expr = "(" + expr + ")$"
